@@ -14,6 +14,15 @@ RULE = (
     "parse(serialize(m)) == m (payload, identity, attributes); parse(frame).serialize() == frame for independently "
     "built frames; eval(repr(m)).payload == m.payload. distinct = blake2b(payload); non-trivial = payload length > 2"
 )
+RULE += (
+    ' Also: alias families (leading / trailing zero bytes), complete frames used as payloads, MSM shapes'
+    ' with satellites x signals = 64 and 63, frames with steered checksum bytes (zeros, CR LF, sync bytes,'
+    " '%', leading zero byte ...), payloads as bytearray / bytes subclass, non-canonical sources (wrong"
+    ' CRC with validate=0, odd headers), reader round trips over file and multi-segment (also TLS-like)'
+    ' sockets; between serialising and parsing back: a refused truncated payload of the same identity, an'
+    ' MSM with unrelated masks and the same body under another constellation; repr round trip also for'
+    ' labelmsm=2.'
+)
 ASSUMPTIONS = ["reference CRC (two cross-checked implementations) and own header arithmetic are the oracle"]
 GATES = ["serialize_checked", "reparse_checked", "frame_roundtrip_checked", "repr_checked", "lengths_enumerated",
          "alias_families", "reader_roundtrip_checked", "noncanonical_source_checked", "frame_as_payload",
